@@ -28,7 +28,8 @@ def pool():
         datetime.datetime(2020, 6, 1, 12, tzinfo=TZ.utc), datetime.datetime(2020, 6, 1, 12), datetime.date(2020, 6, 1), datetime.date(1970, 1, 1),
         datetime.datetime(1999, 12, 31, 23, 59, 59, 999000), datetime.date(2000, 1, 1),
         [], [None], [0], [1], [1.0], [1, 2], [1, 2.0], [2], [1, [2]], [1, [2, 3]], [[1]], [[]], ['a'], ['a', 1], [True], [None, None], [[1, 2], 3],
-        {}, {'a': 1}, {'a': 1.0}, {'a': 2}, {'b': 1}, {'a': 1, 'b': 2}, {'b': 2, 'a': 1}, {'a': None}, {'a': [1]}, {'a': {'b': 1}}, {'a': {'b': 1.0}}, {'': 0},
+        {}, {'a': 1}, {'a': 1.0}, {'a': 2}, {'b': 1}, {'a': 1, 'b': 2}, {'b': 2, 'a': 1}, {'a': None}, {'a': [1]}, {'a': {'b': 1}}, {'a': {'b': 1.0}}, {'': 0}, {'a': True}, {'a': False}, {'a': 0}, {'a': [True]}, {'a': {'b': True}}, {'a': {'b': 0}}, {'a': 1, 'b': True}, {'a': '1'},
+        [1, 3], [1, 2, 3], [3], [2, 1], [[2]], [[1, 3]], [0, 5], [False], [0], [[True]], [[1]],
         f1, f2, re.compile('a'), re.compile('b'),
     ]
     # derived nested values up to depth 3
